@@ -87,6 +87,9 @@ def presentations3d(s, tier, seed):
     out.append((sh[2][0], present.basis_change(s, sh[2][1])))
     out.append(("super2@0", present.supercell(s, np.diag([2, 1, 1]))))
     out.append(("super.rot45", present.supercell(s, [[1, 1, 0], [-1, 1, 0], [0, 0, 1]])))
+    # left-handed description of the same crystal (two cell vectors exchanged) and a strongly sheared basis (b + 2a, c - 2b)
+    out.append(("axes.swap01", present.relabel_axes(s, (1, 0, 2))))
+    out.append(("shear.strong", present.basis_change(s, np.array([[1, 0, 0], [2, 1, 0], [0, -2, 1]]))))
     if tier != "quick":
         out.append(("rot.z90", present.rotate(s, geom.rot_axis((0, 0, 1), 90))))
         out.append(("rot.g1+trans", present.translate(present.rotate(s, gr[1]), np.array([-4.1, 0.3, 2.2]), rewrap=True)))
